@@ -446,7 +446,7 @@ Qed.
 (* the messages of a full ECDHE handshake as structured values, and the log computed from their
    encodings: every part is the projection of what was sent *)
 Theorem log_of_full_ecdhe_handshake ch sh certs k cpub nst a cl sl ka pt cpt :
-  hello_ok ch -> server_hello_ok sh ->
+  hello_ok ch -> server_hello_ok sh -> a_skx_rejected a = false ->
   ch_log_of ch = Some cl -> sh_log_of sh a = Some sl -> sl_selected_version sl = None ->
   Forall (fun c => blen c < 16777216) certs -> blen (flat_map enc_vec24 certs) < 16777216 ->
   ka_of_suite (sl_suite sl) = Some ka -> (ka = 1 \/ ka = 2) ->
@@ -470,7 +470,7 @@ Theorem log_of_full_ecdhe_handshake ch sh certs k cpub nst a cl sl ka pt cpt :
              end)
             (Some (a_master a)) (Some (a_premaster a))).
 Proof.
-  intros HC HS CL SL SV GC GT KA KAE P G HSch PT CPT LS NST.
+  intros HC HS REJ CL SL SV GC GT KA KAE P G HSch PT CPT LS NST.
   unfold log_of_msgs.
   change (find_msg 1 [(1, enc_client_hello ch); (16, enc_vec8 cpub)]) with (Some (enc_client_hello ch)).
   cbn [bind].
@@ -493,7 +493,7 @@ Proof.
                     (match skx_scheme k with Some s => logged_sig_and_hash_ecdhe s | None => None end))) as ->.
   { destruct (skx_scheme k) as [s|] eqn:S; [|reflexivity].
     specialize (LS s eq_refl). destruct (logged_sig_and_hash_ecdhe s); [reflexivity | congruence]. }
-  cbn [bind].
+  cbn [bind]. rewrite REJ.
   change (find_msg 16 [(1, enc_client_hello ch); (16, enc_vec8 cpub)]) with (Some (enc_vec8 cpub)).
   unfold ckx_log_of. cbn [kl_curve].
   assert (ka =? 0 = false) as -> by (destruct KAE; subst; reflexivity). rewrite KB.
